@@ -137,13 +137,23 @@ func NewWSTransport(ctx context.Context, opts WSTransportOptions) *WSTransport {
 // existing connection when one is available for the same endpoint, subprotocol,
 // headers, and init payload, dialing a new one otherwise.
 func (t *WSTransport) Subscribe(ctx context.Context, req *common.Request, opts common.Options, handler common.Handler) (func(), error) {
-	conn, err := t.getOrDial(ctx, opts)
-	if err != nil {
-		return nil, err
-	}
+	for attempt := 0; ; attempt++ {
+		conn, err := t.getOrDial(ctx, opts)
+		if err != nil {
+			return nil, err
+		}
 
-	id := xid.New().String()
-	return conn.subscribe(ctx, id, req, handler)
+		id := xid.New().String()
+		cancel, err := conn.subscribe(ctx, id, req, handler)
+		// The connection handed out by getOrDial can close (its last subscription
+		// ended) before this subscriber is registered on it. Nothing was written
+		// in that case, so the subscriber simply takes another connection.
+		if errors.Is(err, errClosedBeforeRegister) && attempt < 3 && ctx.Err() == nil {
+			continue
+		}
+
+		return cancel, err
+	}
 }
 
 // pingLoop sends periodic pings to all active connections and shuts down
